@@ -1,5 +1,5 @@
-import BridgeVerif.Spec.JsonLog
-import BridgeVerif.Generated.Schemas
+import BridgeVerif.Lemmas.JsonRoundTrip
+import BridgeVerif.Lemmas.JsonRecord
 /-!
 # C12 — JSON game logs are schema-valid and read back exactly as written
 
@@ -10,45 +10,107 @@ import BridgeVerif.Generated.Schemas
 -/
 namespace Bridge.C12
 
+theorem tag_logs_plain : ∀ c ∈ jkey "logs", escChar c = [c] := by decide
+theorem tag_settings_plain : ∀ c ∈ jkey "board_settings", escChar c = [c] := by decide
+
+theorem mapM_of_forall {α β : Type} (f : α → Option β) (g : α → β) :
+    ∀ (l : List α), (∀ x ∈ l, f x = some (g x)) → l.mapM f = some (l.map g)
+  | [], _ => rfl
+  | x :: r, h => by
+    have hx := h x (List.mem_cons_self ..)
+    have hr := mapM_of_forall f g r fun y hy => h y (List.mem_cons_of_mem _ hy)
+    simp [List.mapM_cons, hx, hr]
+
+theorem mapM_map_of_forall {α β γ : Type} (f : β → Option γ) (k : α → β) (g : α → γ) :
+    ∀ (l : List α), (∀ x ∈ l, f (k x) = some (g x)) → (l.map k).mapM f = some (l.map g)
+  | [], _ => rfl
+  | x :: r, h => by
+    have hx := h x (List.mem_cons_self ..)
+    have hr := mapM_map_of_forall f k g r fun y hy => h y (List.mem_cons_of_mem _ hy)
+    simp [List.mapM_cons, hx, hr]
+
 /-- Python's reader undoes Python's writer on every JSON value (any nesting; strings with quotes, backslashes,
 control characters, astral characters; integers of any size) -/
-theorem loads_dumps (j : Json) (h : j.wf = true) : jsonLoad (pyDumps j) = some j := by
-  sorry
+theorem loads_dumps (j : Json) (h : j.wf = true) : jsonLoad (pyDumps j) = some j :=
+  jsonLoad_pyDumps j h
 
 /-- any sequence of board results (none included) forms ONE valid JSON document: `{"logs": [r1, …, rn]}` -/
 theorem framed_output_is_json (es : List LogEntry) (h : ∀ e ∈ es, e.WF) :
     jsonLoad (logText es) = some (logDoc es) := by
-  sorry
+  have := jsonLoad_frame (jkey "logs") tag_logs_plain (es.map logJson) (by
+    intro j hj
+    obtain ⟨e, he, rfl⟩ := List.mem_map.1 hj
+    exact logJson_wf e (h e he))
+  simpa [logText, logDoc, List.map_map, Function.comp_def] using this
 
 /-- … which conforms to the published log schema -/
 theorem log_validates (es : List LogEntry) (h : ∀ e ∈ es, e.WF)
     (hc : ∀ e ∈ es, ∀ d, e.dda = some d → DdaComplete d) :
-    ∃ doc, jsonLoad (logText es) = some doc ∧ validate Generated.logSchema doc = true := by
-  sorry
+    ∃ doc, jsonLoad (logText es) = some doc ∧ validate Generated.logSchema doc = true :=
+  ⟨logDoc es, framed_output_is_json es h,
+    validate_logDoc es fun e he d hd => ⟨hc e he d hd, (h e he).dda d hd⟩⟩
 
 /-- the parser rebuilds from one written record exactly the record that was written -/
-theorem record_read_back (e : LogEntry) (h : e.WF) : logOfJson? (logJson e) = some e.readBack := by
-  sorry
+theorem record_read_back (e : LogEntry) (h : e.WF) : logOfJson? (logJson e) = some e.readBack :=
+  logOfJson_logJson e h
 
 /-- the log parser reads the document back as the records that were written, in order -/
 theorem log_read_back (es : List LogEntry) (h : ∀ e ∈ es, e.WF) :
     parseBoardLogs? (logText es) = some (es.map LogEntry.readBack) := by
-  sorry
+  have hm' : (es.map logJson).mapM logOfJson? = some (es.map LogEntry.readBack) :=
+    mapM_map_of_forall logOfJson? logJson LogEntry.readBack es fun e he => logOfJson_logJson e (h e he)
+  simp [parseBoardLogs?, framed_output_is_json es h, logDoc, Json.get?, Json.arr?, hm']
 
-/-- "equal in every field": what `readBack` is, field by field -/
+/-- "equal in every field": what `readBack` is, field by field.  (The doubling status of a passed-out contract is
+"none", whatever flags the object carried: the text `Passed_out` has no doubling.) -/
 theorem read_back_is_what_was_written (e : LogEntry) (h : e.WF) :
     let r := e.readBack
     r.boardId = e.boardId ∧ r.dealer = e.dealer ∧ r.vul = e.contract.vul ∧ (∀ p, (r.hands p).Perm (e.deal p)) ∧
-    r.bids = some e.bids ∧ r.contract.finalBid = e.contract.finalBid ∧ r.contract.dbl = e.contract.dbl ∧
+    r.bids = some e.bids ∧ r.contract.finalBid = e.contract.finalBid ∧
+    r.contract.dbl = (if e.contract.isPassedOut then Dbl.none else e.contract.dbl) ∧
     r.contract.vul = e.contract.vul ∧ r.contract.declarer = e.contract.declarer ∧ r.declarer = e.contract.declarer ∧
     r.play = e.play ∧ r.tricks = e.tricks ∧ r.scoreType = some e.scoring.value ∧
     r.scores = some [(.NS, e.scoreNS), (.EW, e.scoreEW)] ∧ r.dda = e.dda ∧
-    r.players = some [(.N, e.north), (.E, e.east), (.S, e.south), (.W, e.west)] := by
-  sorry
+    r.players = some [(.N, e.north), (.E, e.east), (.S, e.south), (.W, e.west)] :=
+  readBack_fields e h
 
 /-- the same document is accepted as a board-settings source and yields the same boards in the same order -/
 theorem log_as_settings (es : List LogEntry) (h : ∀ e ∈ es, e.WF) :
     parseBoardSettings? (logText es) = some (es.map LogEntry.setting) := by
-  sorry
+  have hm : (es.map logJson).mapM settingOfJson? = some (es.map LogEntry.setting) :=
+    mapM_map_of_forall settingOfJson? logJson LogEntry.setting es fun e he => settingOfJson_logJson e (h e he)
+  simp [parseBoardSettings?, framed_output_is_json es h, logDoc, Json.get?, Json.arr?, hm]
+
+/-! ### non-vacuity: a played board with a double-dummy table and awkward strings satisfies the hypotheses -/
+def exEntry : LogEntry :=
+  { boardId := "b \"1\"\\ é😀".toList, north := "n".toList, east := [], south := "n".toList, west := [],
+    dealer := .W, deal := fun p => match p with | .N => [⟨14, .S⟩, ⟨2, .C⟩] | _ => [], scoring := .IMP,
+    bids := [.bid ⟨5, by omega⟩, .dbl, .pass, .pass, .pass],
+    contract := ⟨some ⟨5, by omega⟩, true, false, .ns, some .W⟩,
+    play := some [⟨.N, [⟨14, .S⟩, ⟨2, .C⟩]⟩], tricks := some 7, scoreNS := -180, scoreEW := 180,
+    dda := some [(.N, [(.C, 1), (.D, 2), (.H, 3), (.S, 4), (.NT, 5)])] }
+theorem exEntry_wf : exEntry.WF where
+  hands := by intro p; cases p <;> decide
+  dda := by
+    intro d hd
+    cases hd
+    exact ⟨by decide, by decide⟩
+  declarer := by decide
+  noDeclarer := by decide
+  play := by
+    intro ts hts
+    cases hts
+    decide
+example : parseBoardLogs? (logText [exEntry]) = some [exEntry.readBack] :=
+  log_read_back [exEntry] (by simpa using exEntry_wf)
+example : ∃ doc, jsonLoad (logText [exEntry]) = some doc ∧ validate Generated.logSchema doc = true :=
+  log_validates [exEntry] (by simpa using exEntry_wf) (by
+    intro e he d hd
+    simp at he
+    subst he
+    cases hd
+    unfold DdaComplete
+    decide)
+example : jsonLoad (logText []) = some (logDoc []) := framed_output_is_json [] (by simp)
 
 end Bridge.C12
